@@ -417,6 +417,7 @@ func (h *Handler) readLoop(assoc *Association) {
 			continue
 		}
 
+		verifYield("udp.readLoop.after-read")
 		assoc.UpdateActivity()
 
 		// Encrypt payload
